@@ -215,6 +215,7 @@ func run(r *mon.Run) {
 			wg.Add(1)
 			go func(gi int) {
 				defer wg.Done()
+				defer r.Recover("concurrent workload")
 				g := r.Rand("concurrent", gi+100*r.Shard)
 				for k := 0; k < 150; k++ {
 					d := drafts[(gi+k)%2]
@@ -249,6 +250,68 @@ func run(r *mon.Run) {
 		wg.Wait()
 		r.Distinct("concurrent")
 	}
+	// payloads that are windows of one larger buffer (slices with spare capacity): the windows are encoded one after
+	// the other, then each stream is decoded and compared with what the window held before anything was encoded
+	for ai := 0; ai < 12; ai++ {
+		if !r.Mine(ai) {
+			continue
+		}
+		g := r.Rand("arena", ai)
+		d := drafts[ai%2]
+		rs := 1 + g.Intn(40)
+		var lens []int
+		total := 0
+		for w := 0; w < 6; w++ {
+			l := g.Intn(3*rs + 2)
+			if w%3 == 1 {
+				l = rs * (1 + g.Intn(3))
+			}
+			lens = append(lens, l)
+			total += l
+		}
+		arena := make([]byte, total+64)
+		for i := range arena {
+			arena[i] = byte(1 + g.Intn(255)) // no zero bytes: a zero written by the encoder is visible
+		}
+		snap := append([]byte(nil), arena...)
+		type enc struct {
+			stream []byte
+			digest string
+			err    error
+		}
+		var encs []enc
+		off := 0
+		for _, l := range lens {
+			var buf bytes.Buffer
+			dg, err := d.enc.Encode(&buf, arena[off:off+l], rs) // cap reaches to the end of the arena
+			encs = append(encs, enc{buf.Bytes(), dg, err})
+			off += l
+		}
+		off = 0
+		for w, l := range lens {
+			want := snap[off : off+l]
+			off += l
+			e := encs[w]
+			problem := ""
+			if e.err != nil {
+				problem = "Encode: " + e.err.Error()
+			} else if dec, derr := d.enc.NewDecoder(bytes.NewReader(e.stream), e.digest, 16384); derr != nil {
+				problem = "NewDecoder: " + derr.Error()
+			} else if out, rerr := io.ReadAll(dec); rerr != nil || !bytes.Equal(out, want) {
+				problem = fmt.Sprintf("decoding gives %d bytes (err=%v) that differ from the %d-byte payload (first difference at %d)", len(out), rerr, len(want), firstDiff(out, want))
+			}
+			if problem != "" {
+				r.Eval("WINDOW-MISMATCH")
+				r.Violation(fmt.Sprintf("mi:window:%s:rs%d:w%d", d.enc, rs, w), fmt.Sprintf("%s rs=%d: payload %d of 6 held as consecutive windows of one buffer (len=%d) does not round-trip after the windows before it were encoded: %s", d.enc, rs, w, l, problem), map[string]any{"lens": lens, "record_size": rs})
+			} else {
+				r.Eval("window-ok")
+			}
+		}
+		if !bytes.Equal(arena, snap) {
+			r.Count("note:caller-buffer-modified-by-encode")
+		}
+		r.Distinct("arena-windows|" + string(d.enc))
+	}
 	nRand := 300
 	lmax := 64 << 10
 	if r.Thorough {
@@ -275,4 +338,19 @@ func run(r *mon.Run) {
 		sc := []schedule{schedules[0], mon.Pick(g, schedules[3:])}
 		one(r, d, g.Bytes(l), rs, "random", sc, 37)
 	}
+}
+
+func firstDiff(a, b []byte) int {
+	for i := 0; i < len(a) && i < len(b); i++ {
+		if a[i] != b[i] {
+			return i
+		}
+	}
+	if len(a) < len(b) {
+		return len(a)
+	}
+	if len(b) < len(a) {
+		return len(b)
+	}
+	return -1
 }
